@@ -1,4 +1,5 @@
 import OpusModel.SilkParams
+import OpusModel.SilkSynthIdx
 import Driver.Util
 /- Suite `silkparams` (property C18): SILK side-information dequantisers.
    Lists are `a,b,c`; codebooks are `nbmb` / `wb`. -/
@@ -11,6 +12,16 @@ def parseCB : String → Option NlsfCB
   | _ => none
 
 def okList (l : List Int) : String := s!"OK {intList l}"
+
+/-- `0101` → `[false, true, false, true]`; anything else → `none`. -/
+def parseBits (s : String) : Option (List Bool) :=
+  s.toList.mapM fun c => if c = '0' then some false else if c = '1' then some true else none
+
+/-- The arrays whose accesses the instrumented harness records for `silk_decode_core` (the stack array
+    `A_Q12_tmp` and the constant table `silk_Quantization_Offsets_Q10` are outside its reach). -/
+def coreTieArrays : List Opus.SilkSynthIdx.Arr :=
+  [.sLTP, .sLTP_Q15, .res_Q14, .sLPC_Q14, .exc_Q14, .outBuf, .sLPC_Q14_buf, .predCoef, .ltpCoef, .gains,
+   .pitchL, .xq, .pulses]
 
 /-! Diagnostics (op `path`): which branch of the model an input exercises.  Used only to report the
     branch coverage of the generated cases in the evidence; not part of any comparison. -/
@@ -126,6 +137,19 @@ def handle : List String → String
       resStr (fun r => s!"OK a0={intList r.1} a1={intList r.2.1} nlsf={intList r.2.2}")
         (decodeNlsfParams cb idx prev coef ffar)
     | _, _, _, _, _ => "bad-op"
+  | ["synthcore", fs, nb, sig, qoff, interp, pl, loss, prev, lagPrev, gd, ad] =>
+    match parseInt fs, parseNat nb, parseInt sig, parseInt qoff, parseInt interp, parseIntList pl with
+    | some fs, some nb, some sig, some qoff, some interp, some pl =>
+      match parseInt loss, parseInt prev, parseInt lagPrev, parseBits gd, parseBits ad with
+      | some loss, some prev, some lagPrev, some gd, some ad =>
+        if pl.length ≠ 4 ∨ gd.length ≠ 4 ∨ ad.length ≠ 4 ∨ (nb ≠ 2 ∧ nb ≠ 4) ∨ (fs ≠ 8 ∧ fs ≠ 12 ∧ fs ≠ 16) then "bad-op"
+        else
+          let r := Opus.SilkSynthIdx.coreAccesses
+            { fsKHz := fs, nbSubfr := nb, signalType := sig, quantOffsetType := qoff, interp := interp ≠ 0,
+              pitchL := pl, lossCnt := loss, prevSignalType := prev, lagPrev := lagPrev, gainDiff := gd, adjNe := ad }
+          if r.2 then "ABORT" else s!"OK {Opus.SilkSynthIdx.extentsStr r.1 coreTieArrays}"
+      | _, _, _, _, _ => "bad-op"
+    | _, _, _, _, _, _ => "bad-op"
   | _ => "bad-op"
 
 end Driver.SuiteSilkParams
